@@ -246,7 +246,11 @@ func c15Scenarios(tier string) []scenario {
 						// with two pings "dup" answers the first twice and withholds the second
 					}
 					prm := c15Params{K: k, N: n, Variant: v, Reader: rd}
-					scs = append(scs, scenario{Name: prm.name(), Cfg: cfg, Setup: c15Setup(prm), Group: fmt.Sprintf("%s/k%d/%s", v, n, k.String())})
+					pc := cfg
+					if n >= 3 {
+						pc.P = 1 // three pingers: one preemption (two did not finish in 20 minutes)
+					}
+					scs = append(scs, scenario{Name: prm.name(), Cfg: pc, Setup: c15Setup(prm), Group: fmt.Sprintf("%s/k%d/%s", v, n, k.String())})
 				}
 			}
 		}
